@@ -2,7 +2,7 @@
 # tools/sweep_some.sh "<checks>" <tier> <seed>...   – like sweep.sh for a subset of the checks
 HERE="$(cd "$(dirname "$0")/.." && pwd)"; cd "$HERE"
 checks="$1"; tier="$2"; shift 2
-( cd lean && lake build hwmodel $(for c in $checks; do echo Haiway.Props.$c; done) Haiway.Bridge.Contexts Haiway.Bridge.Queue Haiway.Bridge.ScopeStateEndToEnd Haiway.Bridge.Missing Haiway.Bridge.MetricsEndToEnd Haiway.Bridge.MetricsViewEndToEnd Haiway.Bridge.Spawn Haiway.Bridge.RetryEndToEnd Haiway.Bridge.CacheEndToEnd Haiway.Bridge.ThrottleEndToEnd Haiway.Bridge.StateObj Haiway.Bridge.StateInit Haiway.Bridge.Completion Haiway.Bridge.Adopt Haiway.Bridge.Wrap Haiway.Bridge.LogScope Haiway.Bridge.DispExit Haiway.Bridge.Cancel Haiway.Bridge.Timeout >/dev/null 2>&1 ) || { echo "BUILD FAILED"; exit 2; }
+( cd lean && lake build hwmodel $(for c in $checks; do echo Haiway.Props.$c; done) Haiway.Bridge.Contexts Haiway.Bridge.Queue Haiway.Bridge.ScopeStateEndToEnd Haiway.Bridge.ScopeStateInit Haiway.Bridge.Missing Haiway.Bridge.MetricsEndToEnd Haiway.Bridge.MetricsViewEndToEnd Haiway.Bridge.Spawn Haiway.Bridge.RetryEndToEnd Haiway.Bridge.CacheEndToEnd Haiway.Bridge.ThrottleEndToEnd Haiway.Bridge.StateObj Haiway.Bridge.StateInit Haiway.Bridge.Completion Haiway.Bridge.Adopt Haiway.Bridge.Wrap Haiway.Bridge.LogScope Haiway.Bridge.DispExit Haiway.Bridge.Cancel Haiway.Bridge.Timeout >/dev/null 2>&1 ) || { echo "BUILD FAILED"; exit 2; }
 for seed in "$@"; do
   for c in $checks; do
     out=$(VERIF_SEED=$seed VERIF_NO_EVIDENCE=1 ./check $c --tier $tier 2>&1 | grep -v "^case:\|^  implementation:\|^  model:\|^  monitor:"); rc=$?
